@@ -27,6 +27,7 @@ func (c Call) Full() string {
 
 type Method struct {
 	Name  string `json:"name"`
+	Ctor  bool   `json:"ctor,omitempty"` // a constructor (named like its class)
 	Calls []Call `json:"calls,omitempty"`
 }
 
@@ -59,7 +60,10 @@ func (m Model) ToCoca() []core_domain.CodeDataStruct {
 			ds.FunctionCalls = append(ds.FunctionCalls, core_domain.CodeCall{Package: fc.Pkg, NodeName: fc.Node, FunctionName: fc.Func, Type: "field"})
 		}
 		for _, mm := range c.Methods {
-			f := core_domain.CodeFunction{Name: mm.Name, ReturnType: "void"}
+			f := core_domain.CodeFunction{Name: mm.Name, ReturnType: "void", IsConstructor: mm.Ctor}
+			if mm.Ctor {
+				f.ReturnType = ""
+			}
 			for _, cc := range mm.Calls {
 				f.FunctionCalls = append(f.FunctionCalls, core_domain.CodeCall{Package: cc.Pkg, NodeName: cc.Node, FunctionName: cc.Func, Type: cc.Type})
 			}
@@ -149,6 +153,10 @@ func Gen(t *rapid.T, o Options) Model {
 				mn = mn + "\"x"
 			}
 			c.Methods = append(c.Methods, Method{Name: mn})
+		}
+		if rapid.IntRange(0, 3).Draw(t, "hasCtor") == 3 {
+			// a constructor is a function like any other for the call relation
+			c.Methods = append(c.Methods, Method{Name: name, Ctor: true})
 		}
 		m.Classes = append(m.Classes, c)
 	}
